@@ -70,6 +70,73 @@ def check_vars(declared, got, path, problems, findings):
                 check_vars(c, g, path + [c["name"]], problems, findings)
 
 
+def include_layer(chk, rng, quick):
+    """INCLUDE lines: a run of variable declarations of each file is moved into an include file that lies beside
+    the including file; two directories use the same include name for different contents.  The reader splices
+    the included statements in, so the statement sequence - and the declared tree - is that of the original file."""
+    from harness.impl import fordrun as F
+    cases, terms = [], []
+    for k in range(12 if quick else 150):
+        files, expect = {}, {}
+        for j, d in enumerate(("a", "b")):
+            cx = T.Ctx(rng, docs=True, spell=rng.random() < 0.5, styles=False, idcase=False)
+            cx.n = 100 * (2 * k + j)
+            fname = f"u{k}{d}.f90"
+            f = T.gen_file(cx, fname, [], allow_program=(j == 0))
+            ev = T.render_file(cx, f)
+            runs = []
+            i = 0
+            while i < len(ev):
+                if ev[i][0] and ev[i][0].startswith("SLeaf LVariable") and ev[i][1] is not None:
+                    e = i + 1
+                    while e < len(ev) and ev[e][0] and ev[e][1] is not None and \
+                            (ev[e][0].startswith("SLeaf LVariable") or ev[e][0].startswith("SDoc")):
+                        e += 1
+                    runs.append((i, e))
+                    i = e
+                else:
+                    i += 1
+            if not runs:
+                continue
+            a, b = rng.choice(runs)
+            inc = "\n".join(t for _, t in ev[a:b]) + "\n"
+            spelling = rng.choice(["include 'params.inc'", 'INCLUDE "params.inc"', "  include   'params.inc'"])
+            text = "\n".join([t for _, t in ev[:a] if t is not None] + [spelling] +
+                             [t for _, t in ev[b:] if t is not None]) + "\n"
+            if not core.is_ascii(text + inc):
+                continue
+            files[f"src/{d}/{fname}"] = text
+            files[f"src/{d}/params.inc"] = inc
+            expect[fname] = (ev, T.spec_tree(f), text, inc)
+        if len(expect) < 2:
+            continue
+        with F.Work(files) as w:
+            try:
+                p = F.parse_project(w.root, correlate=False)
+                got = {f.name: ("ok", I.file_node(f), "") for f in p.files}
+                log = p._verif_log
+            except BaseException as e:  # noqa
+                if isinstance(e, (KeyboardInterrupt, SystemExit)):
+                    raise
+                got, log = {}, f"{type(e).__name__}: {e}"
+        for fname, (ev, spec, text, inc) in expect.items():
+            res = got.get(fname, ("err", "rejected", log))
+            cases.append((fname, text, inc, res, log))
+            terms.append(case_term(fname, ev, res, spec))
+            chk.count(("include", text, inc), nontrivial=True,
+                      sample={"file": text[:300], "include": inc[:200]} if len(cases) < 2 else None)
+    out = chk.coq_judge(IMPORTS, CASE_T, "judge", terms, shard=40)
+    if out is not None:
+        chk.traces += len(cases)
+        for idx, code in sorted(out.items()):
+            fname, text, inc, res, log = cases[idx]
+            chk.violation("failing-input" if code & 2 else "broken-correspondence",
+                          {"what": "a file that INCLUDEs declarations from a file beside it (another directory has an "
+                                   "include file of the same name) is not documented with its own declarations",
+                           "code": code, "file": fname, "text": text, "include": inc,
+                           "impl": res[0] if res[0] != "ok" else "tree", "log": log[-500:]}, bool(code & 2))
+
+
 def run(chk):
     chk.build(["theories/Corr/C01.vo", "theories/Props/C01.vo"] + list(TY.BUILD_TARGETS))
     chk.props("theories/Props/C01.v", THEOREMS)
@@ -116,6 +183,7 @@ def run(chk):
                                "impl": res[0] if res[0] != "ok" else "tree", "impl_error": res[1] if res[0] != "ok" else None,
                                "log": res[2][-800:], "text": text}, bool(code & 2))
         chk.extra["variable_attribute_problems"] = nprob
+        include_layer(chk, rng, quick)
     finally:
         shutil.rmtree(work, ignore_errors=True)
 
